@@ -127,6 +127,14 @@ void run_pair(Out& o, const ITV& x, const ITV& y, bool unary_too, bool wrap_ops,
       nm = std::string("run:") + REL_NAMES[r];
       if (o.want(nm)) { z = x; z.refine_universal(RELS[r], y); o.ev(nm, sx, sy, show_itv(z), z.OK()); }
     }
+    if (o.want("cc76") && !x.is_empty() && !y.is_empty() && x.contains(y)) {
+      // stop points -2 -1 0 1 2 (sorted), as the tests of Box::CC76_widening_assign pass them
+      typedef typename ITV::boundary_type V;
+      V stops[5] = { Tr<ITV>::conv(mpq_class(-2)), Tr<ITV>::conv(mpq_class(-1)), Tr<ITV>::conv(mpq_class(0)),
+                     Tr<ITV>::conv(mpq_class(1)), Tr<ITV>::conv(mpq_class(2)) };
+      z = x; z.CC76_widening_assign(y, stops, stops + 5);
+      o.ev("cc76", sx, sy, show_itv(z), z.OK());
+    }
 #define PRED(NAME, EXPR) if (o.want(NAME)) { bool b = (EXPR); o.ev(NAME, sx, sy, b ? "T" : "F", true); }
     PRED("contains", x.contains(y))
     PRED("scontains", x.strictly_contains(y))
